@@ -30,6 +30,19 @@ def run(repo, tier):
     out += pvalues_rules(repo)
     out += merge_rules(repo)
     out += background_rules(repo)
+    from ..rules import loop_headers_rule
+    for q, exp, what in (
+            ("_p_value_backgrounds", ["range(nq)", "range(i, nq)", "range(1, n_bins + 1)", "range(n_bins * j + 1)", "range(1, n_bins + 1)", "range(n_bins * (j + 1) + c)",
+                                      None, "range(nq, t_max + 1)", None, "range(nq - i + 1)", "range(i - 1)", "range(B.shape[0])", "range(1, n)", "range(n)"],
+             "every query span, score bin, target length and alignment class enters the null distribution"),
+            ("_p_values", ["enumerate(T_lens)", "range(nt + nq - 1)", "range(nt)", "range(nq)", "range(nt + nq - 1)"],
+             "every target, every target column, every query column and every relative offset is scanned"),
+            ("_integer_distances_and_histogram", ["range(nq)", "range(Y.shape[-1])", "range(Y.shape[0])", "range(nq)", "range(nq)", "range(Y.shape[-1])"],
+             "distances are computed for every query column x target column x alphabet row"),
+            ("_binned_median", ["range(n)", "range(n_bins)"], "the binned median sees every value and scans every bin"),
+            ("_merge_rc_results", ["range(n)"], "every target's strands are merged"),
+            ("_pairwise_max", ["range(n)"], "the maximum distribution is computed for every score")):
+        out += loop_headers_rule(repo.func(T + "." + q), exp, "LOOPS", what)
     return out
 
 
